@@ -421,6 +421,39 @@ EioLost(m, t, reason) ==
     IN  [m2 EXCEPT !.s.eio[t] = "closed", !.s.sess = Del(@, t)]
 
 ----------------------------------------------------------------------------
+(* server.py call (230-279): emit with an internal callback, then wait     *)
+(* while `during` happens (ACKs arriving, transports being lost); the     *)
+(* frames and transport events that arrive meanwhile are processed by      *)
+(* other threads / tasks and contained there                               *)
+RECURSIVE DuringS(_, _)
+DuringS(m, steps) ==
+    IF steps = <<>> THEN m
+    ELSE LET x  == Head(steps)
+             m1 == IF m.s.eio[x.t] # "open" THEN m
+                   ELSE IF x.act = "RxAck" THEN HandleAck(m, x.t, x.ns, x.id, x.args)
+                   ELSE EioLost(m, x.t, x.reason)
+         IN  DuringS(m1, Tail(steps))
+
+Shape(args) == IF Len(args) = 0 THEN <<"ok", "none">>
+               ELSE IF Len(args) = 1 THEN <<"ok", "one", args[1]>>
+               ELSE <<"ok", "tuple">> \o args
+
+CallTag(sid, id) == "call:" \o sid \o ":" \o ToString(id)
+CallTags == {CallTag(SidName(i), k) : i \in 1..MaxSid, k \in 0..(MaxAck + 2)}
+IsCallTag(tag) == tag \in CallTags      \* call()'s internal callback: not an application callback
+
+CallS(m, a) ==
+    IF ~AsyncHandlers THEN Raise(m, "RuntimeError")
+    ELSE LET nid  == Get(m.s.cb, a.sid, [next |-> 1, out |-> <<>>]).next
+             m1   == Emit(m, [ns |-> a.ns, toKind |-> "one", to |-> <<a.sid>>, skipKind |-> "none",
+                              skip |-> <<>>, ev |-> a.ev, data |-> "v1", cb |-> CallTag(a.sid, nid)])
+             m2   == DuringS(m1, a.during)
+             mine == SelectSeq(m2.cbs, LAMBDA x : x.tag = CallTag(a.sid, nid))
+             m3   == [m2 EXCEPT !.cbs = SelectSeq(@, LAMBDA x : x.tag # CallTag(a.sid, nid))]
+         IN  IF mine = <<>> THEN Raise(m3, "TimeoutError")
+             ELSE [m3 EXCEPT !.res = Shape(mine[1].args)]
+
+----------------------------------------------------------------------------
 (* Dispatcher: the outcome of action record a in core state s              *)
 IsRx(a) == a.act \in {"RxConnect", "RxDisconnect", "RxEvent", "RxAck", "RxFrame", "RxRaw", "EioLost"}
 
@@ -442,6 +475,7 @@ Step(m, a) ==
       \* raises inside engine.io; "ignored": decodable but nobody is responsible)
       [] a.act = "RxRaw"        -> IF a.class = "contained" THEN Raise(m, "X") ELSE m
       [] a.act = "Emit"         -> Emit(m, a)
+      [] a.act = "Call"         -> CallS(m, a)
       [] a.act = "EnterRoom"    -> EnterRoom(m, a.sid, a.room, a.ns)
       [] a.act = "LeaveRoom"    -> LeaveRoom(m, a.sid, a.room, a.ns)
       [] a.act = "CloseRoom"    -> CloseRoom(m, a.room, a.ns)
@@ -457,7 +491,10 @@ Step(m, a) ==
 (* An exception raised by an API call reaches the caller; one raised while *)
 (* a frame or a transport event is processed is contained by engine.io.    *)
 Do(s, a) ==
-    LET m == Step(M0(s), a)
+    LET m0 == Step(M0(s), a)
+        \* an ACK that completes an abandoned call() (it timed out earlier) runs that call's
+        \* internal callback, which no application code sees
+        m  == [m0 EXCEPT !.cbs = SelectSeq(@, LAMBDA x : ~IsCallTag(x.tag))]
     IN  IF m.exc = "" THEN m
         ELSE [m EXCEPT !.res = <<IF IsRx(a) THEN "contained" ELSE "exc", m.exc>>]
 
@@ -476,6 +513,7 @@ Enabled(s, a) ==
                                  \* budget: attachments buffered for one packet
                                  /\ (a.kind = "att" /\ Has(s.binbuf, a.t) => Len(s.binbuf[a.t].atts) < 3)
          [] a.act = "Emit" -> a.cb # "" => \A x \in DOMAIN s.cb : s.cb[x].next <= MaxAck
+         [] a.act = "Call" -> \A x \in DOMAIN s.cb : s.cb[x].next <= MaxAck
          [] OTHER -> TRUE
 
 ----------------------------------------------------------------------------
@@ -506,6 +544,10 @@ CountDisc(g, hc) ==     \* observation: disconnect handler invocations
     IN  [g EXCEPT !.druns = [x \in DOMAIN @ \cup sids |->
             Get(@, x, 0) + Cardinality({k \in 1..Len(hc) : hc[k].ev = "disconnect" /\ hc[k].sid = x})]]
 
+RECURSIVE GhostStep(_, _, _, _), GDuring(_, _, _)
+GDuring(s, g, steps) ==
+    IF steps = <<>> THEN g ELSE GDuring(s, GhostStep(s, g, Head(steps), <<>>), Tail(steps))
+
 GhostStep(s, g, a, o) ==
     CASE a.act = "RxConnect" ->
             IF Served(a.ns) /\ ~\E c \in g.conn : c.t = a.t /\ c.ns = a.ns
@@ -532,6 +574,12 @@ GhostStep(s, g, a, o) ==
             [g EXCEPT !.issued = @ \cup
                 {[sid |-> c.sid, id |-> o.pk[c.t][1].id, tag |-> a.cb] :
                     c \in {c \in g.conn : c.ns = a.ns /\ Has(o.pk, c.t)}}]
+      [] a.act = "Call" ->
+            IF o.res[1] = "exc" /\ o.res[2] = "RuntimeError" THEN g
+            ELSE LET g1 == [g EXCEPT !.issued = @ \cup
+                              {[sid |-> c.sid, id |-> o.pk[c.t][1].id, tag |-> CallTag(c.sid, o.pk[c.t][1].id)] :
+                                  c \in {c \in g.conn : c.sid = a.sid /\ c.ns = a.ns /\ Has(o.pk, c.t)}}]
+                 IN  GDuring(s, g1, a.during)
       [] a.act = "RxAck" ->
             [g EXCEPT !.issued = {x \in @ : ~(x.id = a.id /\ \E c \in g.conn :
                                               c.t = a.t /\ c.ns = a.ns /\ c.sid = x.sid)}]
@@ -723,8 +771,29 @@ C06_AckOutcome ==
         IN  gh.dev = {} =>
             /\ o.res = <<"ok">> /\ o.hc = <<>> /\ o.pk = <<>>
             /\ IF mine # {}
-               THEN o.cbs = <<[tag |-> (CHOOSE x \in mine : TRUE).tag, args |-> a.args]>>
+               THEN LET t == (CHOOSE x \in mine : TRUE).tag
+                    IN  o.cbs = IF IsCallTag(t) THEN <<>> ELSE <<[tag |-> t, args |-> a.args]>>
                ELSE o.cbs = <<>> /\ o.s = st       \* ignored without error and without side effect
+
+(* call(): the result is what THAT client acknowledged under THAT id while  *)
+(* the call was waiting, shaped None / value / tuple; TimeoutError          *)
+(* otherwise (statement-shaped: read off the schedule, not off the code)    *)
+C06_CallOutcome ==
+    \A a \in Acts(st) : a.act = "Call" =>
+        LET o    == Do(st, a)
+            conn == GConnOf(gh, a.sid, a.ns)
+        IN  gh.dev = {} =>
+            IF ~AsyncHandlers THEN o.res = <<"exc", "RuntimeError">> /\ o.s = st
+            ELSE IF conn = {} THEN o.res = <<"exc", "TimeoutError">> /\ o.pk = <<>>
+            ELSE LET c   == CHOOSE c \in conn : TRUE
+                     id  == o.pk[c.t][1].id
+                     idx == {i \in 1..Len(a.during) :
+                                /\ a.during[i].act = "RxAck" /\ a.during[i].t = c.t
+                                /\ a.during[i].ns = a.ns /\ a.during[i].id = id
+                                /\ \A j \in 1..(i - 1) : ~(a.during[j].act = "EioLost" /\ a.during[j].t = c.t)}
+                 IN  /\ \A i \in 1..Len(o.cbs) : o.cbs[i].tag # CallTag(a.sid, id)   \* (only the application's own callbacks show)
+                     /\ IF idx = {} THEN o.res = <<"exc", "TimeoutError">>
+                        ELSE o.res = Shape(a.during[CHOOSE i \in idx : \A j \in idx : i <= j].args)
 
 C06_IssuedMatchesCore ==        \* the declared outstanding set is what the manager holds
     gh.dev = {} =>
